@@ -14,7 +14,8 @@ Impl model (transliteration, defects included) of
   * sql/rowexec/transaction_iters.go  `TransactionCommittingIter.Close` (commit when the statement
                                        is DDL, or @@autocommit and not ignoreAutoCommit)           → `closeTx`
   * sql/analyzer/validation_rules.go  `validateReadOnlyTransaction` (nil dereference for a table that
-                                       is not a TemporaryTable)                                    → `.write` in a READ ONLY transaction = crash
+                                       is not a TemporaryTable; runs on the *resolved* plan, i.e.
+                                       after `tableData` registered the working copy)             → `.write` in a READ ONLY transaction = touch, then crash
 Statement failures at execution time (duplicate key) restore the working copy (C15) and the
 statement still ends with the autocommit commit (`accumulatorIter.Close` returns nil).
 
@@ -163,8 +164,13 @@ def stepWith (spec : Bool) (st : St) (o : Op) : St × Obs × List Region :=
     (⟨b, setSess st.sess o.s se2⟩, .rows v, fl)
   | .write t w =>
     if se0.readOnly then
-      -- validateReadOnlyTransaction: Impl panics (nil TemporaryTable), Spec rejects; no state change
-      (⟨st.base, setSess st.sess o.s se0⟩, if spec then .err else .crash, [Region.readonly_txn_write_panics])
+      -- validateReadOnlyTransaction: Impl panics (nil TemporaryTable), Spec rejects. The rule runs
+      -- after the table has been resolved (planbuilder → GetTableInsensitive → `tableData`), so the
+      -- statement has already registered its working copy of `t` in `Session.tables` (`touch`),
+      -- exactly as a read does; nothing else changes, and there is no commit at close (the
+      -- statement never reaches TransactionCommittingIter; the session is explicit anyway).
+      let (se1, _) := touch st.base se0 t
+      (⟨st.base, setSess st.sess o.s se1⟩, if spec then .err else .crash, [Region.readonly_txn_write_panics])
     else
       let (se1, v) := touch st.base se0 t
       match w.app v with
